@@ -17,8 +17,16 @@ Definition jacobi_sweep (damping : S) (dia : vec) (A : crs) (rhs x tmp : vec) : 
 (* apply: x = 1 * dia * rhs + 0 * x *)
 Definition jacobi_apply (dia : vec) (rhs x : vec) : vec := vmul s1 dia rhs s0 x.
 
-(* --- SPAI-0: m_i = inverse(sum_j |a_ij|^2) * (sum of entries with col == i) --- *)
+(* --- SPAI-0: m_i = inverse(sum_j |a_ij|^2) * (sum of math::adjoint(entry) over entries with col == i)
+       (spai0.hpp: `if (a.col() == i) num += math::adjoint(v);` -- the adjoint was added by the repair of finding
+       C06-spai0-no-conj; the formula before the repair is kept as [spai0_row_old] for the historical refutation) --- *)
 Definition spai0_row (i : nat) (r : row S) : S :=
+  let '(num, den) := fold_left (fun (nd : S * S) e =>
+        let nv := sabs (snd e) in
+        (if Nat.eqb (fst e) i then fst nd + sadj (snd e) else fst nd, snd nd + nv * nv)) r (s0, s0) in
+  sinv den * num.
+(* HISTORICAL: spai0.hpp before the repair (`num += v`), not the least-squares minimiser for complex values *)
+Definition spai0_row_old (i : nat) (r : row S) : S :=
   let '(num, den) := fold_left (fun (nd : S * S) e =>
         let nv := sabs (snd e) in
         (if Nat.eqb (fst e) i then fst nd + snd e else fst nd, snd nd + nv * nv)) r (s0, s0) in
